@@ -112,6 +112,13 @@ add("C16",
 
 # ---------------------------------------------------------------- C17
 add("C17",
+    V("translated-word-into-original-chunk", "C17", [(LOCALE, "                elif translated_chunk and word_is_tz(original_tokens[i]):\n                    translated_chunk.append(word)\n                    original_chunk.append(original_tokens[i])",
+                                                       "                elif translated_chunk and word_is_tz(original_tokens[i]):\n                    translated_chunk.append(word)\n                    original_chunk.append(word)")], "fire", "C17.R5"),
+    V("substring-from-translated-item", "C17", [(SEARCH, "                substrings.append(original[i].strip(\" .,:()[]-'\"))", "                substrings.append(item.strip(\" .,:()[]-'\"))")], "fire", "C17.R5"),
+    V("substring-lowercased", "C17", [(SEARCH, "                substrings.append(original[i].strip(\" .,:()[]-'\"))", "                substrings.append(original[i].strip(\" .,:()[]-'\").lower())")], "fire", "C17.R5"),
+    V("pieces-rejoined-with-space", "C17", [(SEARCH, "                original_join = splitter.join(original_all_split[j : j + i])", "                original_join = \" \".join(original_all_split[j : j + i])")], "fire", "C17.R5"),
+    V("split-original-from-translated", "C17", [(SEARCH, "            return [[item.split(splitter), original.split(splitter)]]", "            return [[item.split(splitter), item.split(splitter)]]")], "fire", "C17.R5"),
+    V("twin-substring-through-temporary", "C17", [(SEARCH, "                substrings.append(original[i].strip(\" .,:()[]-'\"))", "                hit_text = original[i].strip(\" .,:()[]-'\")\n                substrings.append(hit_text)")], "silent"),
     V("revert-fix-blank-substring", "C17", [(SEARCH, '                if parsed_best[k][0]["date_obj"] and substrings_best[k]:', '                if parsed_best[k][0]["date_obj"]:')], "fire", "C17.R4"),
     V("twin-blank-test-first", "C17", [(SEARCH, '                if parsed_best[k][0]["date_obj"] and substrings_best[k]:', '                if substrings_best[k] and parsed_best[k][0]["date_obj"]:')], "silent"),
     V("alignment-loop-one-sided", "C17", [(LOCALE, "        while len(original_tokens) != len(simplified_tokens):\n            if len(original_tokens) > len(simplified_tokens):\n                original_tokens.remove(\"\")\n            else:\n                simplified_tokens.remove(\"\")\n",
